@@ -201,18 +201,18 @@ def cases(rng, tier):
         yield from _exhaustive_reconcile(["a", "b"], [b"1", b"2"])
     else:
         yield from _exhaustive_reconcile(["a", "b", "ü"], [b"1", b"2"])
-    for _ in range(300 if quick else 6000):
+    for _ in range(300 if quick else 4000):
         shared = [_rand_name(rng) for _ in range(4)]
         src = _rand_dict(rng, 6, shared, REVID_POOL)
         dst = _rand_dict(rng, 6, shared, REVID_POOL)
         names = sorted({k for k, _ in src} | {k for k, _ in dst})
         yield {"fn": "reconcile", "src": src, "dst": dst, "overwrite": rng.random() < 0.5, "sel": _rand_sel(rng, names)}
     # 2. tag file: serialise (byte exact), deserialise (valid + damaged), store on a real branch
-    for _ in range(150 if quick else 3000):
+    for _ in range(150 if quick else 2000):
         yield {"fn": "ser", "d": _rand_dict(rng, 6, [], REVID_POOL)}
-    for _ in range(100 if quick else 2000):
+    for _ in range(100 if quick else 1200):
         yield {"fn": "store", "d": _rand_dict(rng, 6, [], REVID_POOL)}
-    for _ in range(200 if quick else 4000):
+    for _ in range(200 if quick else 3000):
         d = {k: v for k, v in _rand_dict(rng, 4, ["a", "b", "ab", "", "1:a", "e"], [b"x", b"", b"1:a", b"e", b"rev-1"])
              if all(ord(c) < 128 for c in k)}
         data = bytearray(_py_bencode(d))
@@ -228,7 +228,7 @@ def cases(rng, tier):
             data[i:i] = bytes([rng.choice(b"0123456789:deab")])
         yield {"fn": "deser", "data": bytes(data)}
     # 3. transfers
-    per = 60 if quick else 1200
+    per = 60 if quick else 700
     for kind in KINDS:
         if kind == "mem-bound":
             continue
